@@ -74,7 +74,7 @@ DoTransfer(u, c, d, a) ==
 \* an incoming packet never fails: it is answered with a success or an error acknowledgement
 DoRecv(c, form, d, a, to) ==
   /\ ~legacy
-  /\ IF form = "ok" /\ d \in Denom /\ a <= chan[c][d].out /\ GasOK(d) /\ ~(d = "tok" /\ tokFails)
+  /\ IF form = "ok" /\ d \in Denom /\ a <= chan[c][d].out /\ GasOK(d) /\ ~(d = "tok" /\ tokFails) /\ to \in User
      THEN /\ chan' = Bump(chan, c, d, -a, 0)
           /\ held' = [held EXCEPT ![d] = @ - a] /\ ubal' = [ubal EXCEPT ![to][d] = @ + a]
           /\ out' = <<PayoutMsg(d, to, a)>> /\ ack' = "ok"
@@ -145,8 +145,10 @@ Call(e, action) ==
 
 ATransfer == Ready /\ \E u \in User, c \in Chan, d \in Denom, a \in Amts :
   Call(Ev("transfer", u, [denom |-> d, ch |-> c, amt |-> a, to |-> "remote1"]), DoTransfer(u, c, d, a))
-ARecv == Ready /\ \E c \in Chan, f \in Forms, d \in Denom \cup {"foo"}, a \in Amts \cup {0}, to \in User :
-  Call(Ev("recv", "relayer", [ch |-> c, form |-> f, denom |-> d, amt |-> a, to |-> to]), DoRecv(c, f, d, a, to))
+\* ("bad": a receiver string that is no address of this chain - the token refuses to pay it)
+ARecv == Ready /\ \E c \in Chan, f \in Forms, d \in Denom \cup {"foo"}, a \in Amts \cup {0}, to \in User \cup {"bad"} :
+  /\ to = "bad" => d = "tok"
+  /\ Call(Ev("recv", "relayer", [ch |-> c, form |-> f, denom |-> d, amt |-> a, to |-> to]), DoRecv(c, f, d, a, to))
 AFail == Ready /\ \E i \in 1..MaxSends, kind \in {"timeout", "nack"} :
   LET p == IF i <= Len(pkts) THEN pkts[i] ELSE [ch |-> "ch1", denom |-> "nat", amt |-> 0, sender |-> "u1", done |-> TRUE]
       a == IF kind = "timeout" THEN [pkt |-> i, ch |-> p.ch, denom |-> p.denom, amt |-> p.amt, sender |-> p.sender]
